@@ -269,6 +269,11 @@ def parse_module(text):
                     while not lines[i].strip().startswith(']'):
                         ln += ' ' + lines[i].strip(); i += 1
                     ln += ' ]'; i += 1
+                if ' invoke ' in (' ' + ln.lstrip()) and ' to label ' not in ln:
+                    ln += ' ' + lines[i].strip(); i += 1
+                if ' landingpad ' in (' ' + ln.lstrip()):
+                    while lines[i].strip().startswith(('cleanup', 'catch ', 'filter ')):
+                        ln += ' ' + lines[i].strip(); i += 1
                 toks = tokenize(ln)
                 # drop trailing metadata attachments ", !tbaa !5"
                 cut = len(toks)
@@ -292,6 +297,7 @@ class Emitter:
         s.strid = 0
         s.ov_helpers = set()
         s.guard_globals = set()
+        s.uses_eh = False; s.in_invoke = False; s.exceptions = False; s.post_call = None
         s.mem_uses = set()
         s.fn_mem = {}
     # ---- C type names
@@ -667,6 +673,14 @@ class Emitter:
     def operand(s, p, ty):
         return s.const_expr(p, ty)
 
+    def ret_zero(s, f):
+        ty = f.ret
+        if isinstance(ty, VoidTy): return 'return;'
+        if isinstance(ty, (IntTy, FloatTy, PtrTy)): return 'return ((%s)0);' % s.cty(ty)
+        return 'return (%s){0};' % s.cty(ty)
+
+    NOTHROW = ('vassume', 'vrt_', 'nondet_', '__cxa_begin_catch', '__cxa_end_catch', '__cxa_allocate_exception', '__cxa_free_exception')
+
     def emit_instr(s, f, lab, toks, body, decls, allocas, jump):
         if s.guard_globals:
             for tk in toks:
@@ -781,6 +795,32 @@ class Emitter:
             decls[dst] = s.cty(ty)
             if base is not None: body.append('%s = %s;' % (dst, base))
             body.append('%s.f%d = %s;' % (dst, k, ev)); return
+        if op == 'invoke':
+            s.uses_eh = True
+            k = len(toks) - 1 - toks[::-1].index('to')
+            call_toks = toks[:k]; call_toks[call_toks.index('invoke')] = 'call'
+            s.in_invoke = True
+            try:
+                s.emit_instr(f, lab, call_toks, body, decls, allocas, jump)
+            finally:
+                s.in_invoke = False
+            pp = P(toks[k:]); pp.expect('to'); pp.expect('label'); okl = pp.next(); pp.expect('unwind'); pp.expect('label'); lpad = pp.next()
+            body.append('if (vrt_exc_pending) %s else %s' % (jump(lab, lpad), jump(lab, okl))); return
+        if op == 'landingpad':
+            s.uses_eh = True
+            ty = parse_type(p)
+            while not p.done():
+                t = p.next()
+                if t == 'cleanup': continue
+                if t == 'catch':
+                    cty_ = parse_type(p); tv = p.next()
+                    if tv != 'null': raise Unsupported('typed catch clause (only catch (...) is modelled)')
+                    continue
+                raise Unsupported('landingpad clause ' + t)
+            decls[dst] = s.cty(ty)
+            body.append('vrt_exc_pending = 0; %s.f0 = (uint8_t*)vrt_exc_buf; %s.f1 = 0;' % (dst, dst)); return
+        if op == 'resume':
+            body.append('vrt_exc_pending = 1; ' + s.ret_zero(f)); return
         if op == 'call':
             while p.peek() in ('fastcc', 'noundef', 'nonnull', 'noalias', 'signext', 'zeroext', 'align', 'dereferenceable', 'dereferenceable_or_null'):
                 t = p.next()
@@ -815,13 +855,29 @@ class Emitter:
                     body.append('VRT_ASSERT(%s, %s);' % (args[0], m_.group(1))); return
                 elif name == 'vassume':
                     body.append('VRT_ASSUME(%s);' % args[0]); return
+                elif name in ('__cxa_throw', '__cxa_rethrow'):
+                    s.uses_eh = True
+                    body.append('vrt_exc_pending = 1;' + ('' if s.in_invoke else ' ' + s.ret_zero(f))); return
+                elif name == '__cxa_allocate_exception':
+                    s.uses_eh = True; e = '((uint8_t*)vrt_exc_buf)'
+                elif name == '__cxa_begin_catch':
+                    s.uses_eh = True; body.append('vrt_exc_pending = 0;'); e = args[0]
+                elif name in ('__cxa_end_catch', '__cxa_free_exception'):
+                    return
                 else:
                     e = '%s(%s)' % (s.fname(name), ', '.join(args))
+                    if s.exceptions and not s.in_invoke and not name.startswith(s.NOTHROW):
+                        s.post_call = 'if (vrt_exc_pending) ' + s.ret_zero(f)
             else:
                 fty = FuncTy(rty_ret, atys, False)
                 e = '((%s)%s)(%s)' % (s.fnptr_name(fty), s.loc(callee), ', '.join(args))
-            if dst and not isinstance(rty_ret, VoidTy): return setv(rty_ret, e)
-            body.append(e + ';'); return
+            pc = s.post_call; s.post_call = None
+            if dst and not isinstance(rty_ret, VoidTy):
+                setv(rty_ret, e)
+            else:
+                body.append(e + ';')
+            if pc: body.append(pc)
+            return
         raise Unsupported('instruction %r' % op)
 
     def intrinsic(s, name, args, atys, rty):
@@ -848,10 +904,11 @@ class Emitter:
 
 PRELUDE = '#include "gen_prelude.h"\n'
 
-def translate(text, keep=None, want_info=False, guard_globals=()):
+def translate(text, keep=None, want_info=False, guard_globals=(), exceptions=False):
     m = parse_module(text)
     em = Emitter(m)
     em.guard_globals = set(guard_globals)
+    em.exceptions = exceptions
     fbodies = []
     for name, f in m.funcs.items():
         em.mem_uses = set()
@@ -893,11 +950,13 @@ def translate(text, keep=None, want_info=False, guard_globals=()):
     protos = ['/* ---- prototypes ---- */']
     for name, fty in m.decls.items():
         if name.startswith('llvm.'): continue
-        if name.startswith('__CPROVER'): continue
+        if name.startswith('__CPROVER') or name == '__gxx_personality_v0': continue
         protos.append(em.proto(name, fty.ret, fty.params, fty.vararg) + ';')
     for name, f in m.funcs.items():
         protos.append(em.proto(name, f.ret, [t for t, _ in f.params]) + ';')
     types = em.emit_types()
+    ehdecl = ['/* ---- exception model: a pending flag; throw sets it and returns, callers without cleanups return immediately,\n      invoke branches to the landing pad, landing pads clear it, resume sets it again (only catch (...) is modelled) ---- */',
+              'static uint8_t vrt_exc_pending = 0;', 'static uint64_t vrt_exc_buf[8];']
     ginit = ['/* ---- dynamic initialisers of namespace-scope objects (llvm.global_ctors), run once at harness entry ---- */',
              'static uint8_t vrt_ginit_done = 0;', 'static void vrt_global_init_once(void);']
     ovh = ['/* ---- *.with.overflow helpers ---- */']
@@ -914,7 +973,7 @@ def translate(text, keep=None, want_info=False, guard_globals=()):
         ovh.append('static inline %s __%s_ov_%d_%s(%s a, %s b){ %s }' % (lit, op, bits, lit.split()[-1], T, T, body))
     types = types + ovh
     gdef = ['static void vrt_global_init_once(void) { if (vrt_ginit_done) return; vrt_ginit_done = 1; ' + ' '.join('%s();' % em.fname(c) for c in m.ctors if c in m.funcs) + ' }']
-    out = [PRELUDE] + types + ginit + protos + glines + gdef + (sw if 'vrt_run_on' in m.decls else [])
+    out = [PRELUDE] + types + ehdecl + ginit + protos + glines + gdef + (sw if 'vrt_run_on' in m.decls else [])
     for fb in fbodies: out.extend(fb)
     csrc = '\n'.join(out) + '\n'
     if not want_info: return csrc
